@@ -284,8 +284,12 @@ SLICE_S = 4.0       # a worker gives the rest of a crash-heavy piece back to the
 
 
 def timeout_for(ncases, algo, grid="t"):
-    """Generous (the machine is shared): only a genuine hang ever waits this long; deadlocks are reported by SimGrid at once."""
-    return min(30.0 + 0.1 * ncases * (25 if algo == "automatic" else 1), 30.0 if grid == "q" else 400.0)
+    """Generous (the machine is shared): only a genuine hang ever waits this long; deadlocks are reported by SimGrid at once.
+    The quick grid is small enough for a flat 30 s; "automatic" (every algorithm in turn) gets at most 400 s more."""
+    if grid == "q":
+        return 30.0
+    base = 30.0 + 0.1 * ncases
+    return base + (min(2.4 * ncases, 400.0) if algo == "automatic" else 0.0)
 
 
 def bad_kind(b):
@@ -371,6 +375,9 @@ def run_piece(task):
             harvest(res, 1 << 30)
             pending = []
             break
+        if not res.inprog and res.timeout and slow < 27:
+            slow *= 3          # timed out between two cases: most likely a slow machine, try again with more time
+            continue
         if not res.inprog:
             # died outside any case (setup, between cases, finalize): shortest failing prefix by bisection
             ids = [i for a, b in pending for i in range(a, b)]
